@@ -354,6 +354,7 @@ func (e *erasureCodingPartStore) openPartReaders(ctx context.Context, tx databas
 	readers := make([]io.ReadCloser, e.totalShards)
 	healShards := make([]bool, e.totalShards)
 	notFound := 0
+	usable := 0
 	for i := 0; i < e.totalShards; i++ {
 		rc, err := e.partStores[i].GetPart(ctx, tx, partId)
 		if err != nil {
@@ -386,11 +387,19 @@ func (e *erasureCodingPartStore) openPartReaders(ctx context.Context, tx databas
 			continue
 		}
 		readers[i] = rc
+		usable++
 	}
 	if notFound == e.totalShards {
 		// No store holds a shard: the part does not exist (never written or
 		// deleted). That is not a part in need of healing.
 		return nil, nil, partstore.ErrPartNotFound
+	}
+	if usable < e.dataShards {
+		// Too few shards are readable to reconstruct anything. Fail instead of
+		// starting a healing read that would return an empty stream and
+		// overwrite the damaged shards with header-only files.
+		closePartReaders(readers)
+		return nil, nil, fmt.Errorf("insufficient shards: %d of %d required shards are usable", usable, e.dataShards)
 	}
 	return readers, healShards, nil
 }
